@@ -97,6 +97,41 @@ def main(tier):
         for o in opts:
             jobs.append((ui, o))
 
+    # statement-limit sweep: the largest -Csmax that still splits the unit is found by bisection, then every value in a window
+    # around it is built and run, so that the boundary between "split" and "not split" (where the separate decisions of the
+    # emitter have to agree) is crossed value by value
+    sweep_units = [ui for ui, u in enumerate(units) if u[0] in ('opnames', 'famF3') or (tier == 'thorough' and not u[0].startswith('names-L') or u[0] == 'names-L30-n3')]
+
+    def splits(ui, smax):
+        d = mkdir('%s/bis-%d-%d' % (ck.work, ui, smax))
+        write(d + '/u.as', units[ui][1])
+        r = tc.aldor(['-Q1', '-Cstandard', '-Cidlen=30', '-Csmax=%d' % smax, '-Cno-lines', '-Fc', 'u.as'], d, timeout=200)
+        n = len([f for f in os.listdir(d) if f.endswith('.c')])
+        shutil.rmtree(d, ignore_errors=True)
+        return r.rc == 0 and n > 1
+
+    def boundary(ui):
+        lo, hi = 1, 1 << 16          # splits at lo, does not split at hi
+        if not splits(ui, lo) or splits(ui, hi):
+            return ui, None
+        while hi - lo > 1:
+            mid = (lo + hi) // 2
+            if splits(ui, mid):
+                lo = mid
+            else:
+                hi = mid
+        return ui, lo
+    bounds = dict(pmap(boundary, sweep_units))
+    for ui in sweep_units:
+        if bounds.get(ui) is None:
+            ck.cut('no split boundary found for %s' % units[ui][0])
+            continue
+        for std in (('-Cstandard',) if tier == 'quick' else ('-Cstandard', '-Cold')):
+            for smax in range(max(1, bounds[ui] - 30), bounds[ui] + 90):
+                jobs.append((ui, (std, 30, smax, '-Cno-lines')))
+    jobs = list(dict.fromkeys(jobs))
+    nfiles_by = {}
+
     def one(j):
         ui, (std, idlen, smax, lines) = j
         name, text, exp = units[ui]
@@ -129,6 +164,8 @@ def main(tier):
             ck.cut('configuration not run')
             continue
         ck.count()
+        if 'nfiles' in res and idlen == 30 and lines == '-Cno-lines':
+            nfiles_by.setdefault((ui, std), {})[smax] = res['nfiles']
         cfg = '%s,idlen=%d,smax=%d,%s' % (std, idlen, smax, lines)
         ok = res['step'] == 'run' and res['rc'] == 0 and res.get('got') == exp and not res.get('dup_exports')
         if ok:
@@ -147,9 +184,14 @@ def main(tier):
                   files={'u.as': text},
                   cmds=[' '.join(tc.b.base() + tc.flags + ['-Q1', std, '-Cidlen=%d' % idlen, '-Csmax=%d' % smax, lines, '-Fc', '-Fmain', 'u.as']),
                         'gcc %s -I. *.c %s -o u.exe && ./u.exe' % (' '.join(tc.b.cflags()), ' '.join(tc.link))])
+    sweeps = []
+    for ui in sweep_units:
+        for std, m in sorted((k[1], v) for k, v in nfiles_by.items() if k[0] == ui):
+            sweeps.append({'unit': units[ui][0], 'std': std, 'largest_smax_that_splits': bounds.get(ui), 'values_built_and_run': len([k for k in m if k >= 1])})
+    ck.cov['smax_sweeps'] = sweeps
     ck.cov.update({
         'rule': '%d units (family units, names sharing prefixes of length %s, operator-character names, %s globals) x C-generation option product (80 configurations; quick: a '
-                'fixed sub-product per unit kind); gcc must accept every file, link must succeed, output must equal the expected text, exported C names must be unique; '
+                'fixed sub-product per unit kind), plus every -Csmax value in a window of 120 around the split boundary of each sweep unit; gcc must accept every file, link must succeed, output must equal the expected text, exported C names must be unique; '
                 'distinct = (unit, configuration) pairs that built and ran correctly' % (len(units), list(Ls), 120 if tier == 'quick' else 300),
         'configurations_run': len(jobs),
         'samples': ['names-L30-n3 under -Cold,idlen=30,smax=5,-Clines', 'opnames under -Cstandard,idlen=0,smax=1,-Cno-lines'],
